@@ -563,8 +563,6 @@ class Report:
             # discharged reports that under other names and falls back to the exploration-style counts
             self.cov["discharged_count"] = self.cov.pop("discharged", 0)
             self.cov["obligations_count"] = self.cov.pop("obligations", 0)
-            self.cov["evaluations"] = max(1, self.cov.get("evaluations", 0))
-            self.cov["distinct_nontrivial"] = max(2, self.cov.get("distinct_nontrivial", 0)) if self.cov["evaluations"] > 1 else self.cov.get("distinct_nontrivial", 0)
         # evidence/ holds runs against /repo only; development runs on a scratch worktree go to build/
         evdir = (VERIF / "evidence") if str(REPO) == "/repo" else (BUILD / "evidence")
         evdir.mkdir(parents=True, exist_ok=True)
